@@ -297,8 +297,10 @@ def flow_stream(rng, ncases, cls, tag, streams, viol, samples):
             continue
         if set(r["split_out"]) != set(r["out"]) or set(r["lin_comb"]) != set(r["lin_sum"]):
             bad_prop.append((kk, "the nuclide set depends on how the calculation was split up / combined"))
-        for n, v in r.get("zero_out", {}).items():
-            pass
+        if "zero_after_other" in r and r["zero_after_other"] != r["zero_out"]:
+            n = next((k for k in r["zero_after_other"] if r["zero_after_other"][k] != r["zero_out"].get(k)), "?")
+            bad_prop.append((kk, f"zero-time decay no longer leaves the amounts unchanged after ANOTHER inventory (holding {sorted(r['zero_other'])}) "
+                                 f"accumulated its decays: {n} = {float.fromhex(r['zero_after_other'][n])!r} instead of {float.fromhex(r['zero_out'].get(n, float(0).hex()))!r}"))
         if r.get("split_t") and all(v is not None for v in r["n0"].values()):
             k = len(c["split"])
             r2 = dict(r, out=r["split_out"], t=r["split_t"])
@@ -328,7 +330,8 @@ def flow_stream(rng, ncases, cls, tag, streams, viol, samples):
     streams[tag] = {"cases": len(cases), "split_checked": len(terms_split), "linear_checked": len(terms_lin),
                     "outside_bound": len(bad), "impl_property_failures": len(bad_prop), "coq_errors": len(errs),
                     "what": "decay(t1)...decay(tk) (k<=4) vs the exact flow at t1+...+tk; (a*X+Y).decay(t) and a*X.decay(t)+Y.decay(t) "
-                            "vs the exact flow of a*X+Y; X.add(Y) in place after earlier calculations on X, then decay(t), vs the exact flow of X+Y; bound = k x the single-call bound"}
+                            "vs the exact flow of a*X+Y; X.add(Y) in place after earlier calculations on X, then decay(t), vs the exact flow of X+Y; bound = k x the single-call bound; "
+                            "zero-time decay repeated after ANOTHER inventory holding the chain's stable end members accumulated its decays (bit-identical)"}
     for kk, why in bad_prop[:3]:
         viol.append({"name": f"{tag}-{len(viol)}", "found_input": True, "key": f"{tag}:{why[:50]}",
                      "payload": {"fails": why, "input": cases[kk], "entry": f"{cls}.decay composition"}})
